@@ -86,3 +86,62 @@ def pitfalls(ctx, rule, files):
                     ctx.ob(rule, f.site, False, f"`if '{a[0]}' in {a[1]}: ... elif '{b[0]}' in {b[1]}: ...`: the entry '{b[0]}' is ignored "
                            f"whenever '{a[0]}' is present as well", role=f"key-elif:{b[0]}", line=sub.orelse[0].lineno)
     return n
+
+
+# definitions that are dead on the pinned tree (value computed, never read), with what they are
+DEAD_DEF_EXEMPT = {
+    # (file, function): (number of dead definitions on the pinned tree, what they are) - by count, not by the name of the local
+    ("decompositions.py", "_build_staircase"): (1, "`Rij_inv`: inverse rotation computed for symmetry with Rij, not needed by the staircase"),
+    ("decompositions.py", "_su2_parameters"): (1, "`b`: second matrix element unpacked for readability of the SU(2) parametrisation"),
+    ("ops.py", "_New_modes._apply"): (1, "`inds`: backend.add_mode returns the new indices; the front end keeps its own RegRefs"),
+    ("backends/bosonicbackend/backend.py", "BosonicBackend.gaussian_cptp"): (1, "`X2`: expansion computed twice; apply_channel expands again"),
+    ("backends/fockbackend/circuit.py", "Circuit.prepare_multimode"): (1, "`scale`: left over from a normalisation that was removed"),
+    ("utils/post_processing.py", "all_fock_probs_pnr"): (1, "`num_modes`: shape bookkeeping that the vectorised implementation does not need"),
+}
+
+
+def dead_definitions(ctx, rule, files):
+    """a value that is computed and then overwritten or dropped on every path before anything reads it: the flow the author
+    had in mind is broken (a flag reset by the `else` of a later, unrelated `if`; a branch whose result never arrives)"""
+    from ..dataflow import rd_of
+    ctx.explain(f"{rule}: (dead definitions) in the property's anchored files and their siblings no plain local is assigned a value that "
+                "no path ever reads (flow-sensitive: reaching definitions at every read, augmented assignments and item stores count "
+                "as reads, closures and comprehensions as reads everywhere; names starting with `_` are deliberate). Six dead "
+                "definitions exist on the pinned tree and are frozen with what they are.")
+    rels = {x[len("strawberryfields/"):] if x.startswith("strawberryfields/") else x for x in files}
+    n = 0
+    for f in ctx.tree.all_functions():
+        if f.module.rel not in rels:
+            continue
+        try:
+            rd = rd_of(f.node)
+        except Exception:
+            continue
+        nested = set()
+        for x in ast.walk(f.node):
+            if isinstance(x, (ast.Lambda, ast.FunctionDef, ast.ListComp, ast.SetComp, ast.DictComp, ast.GeneratorExp)) and x is not f.node:
+                nested |= {y.id for y in ast.walk(x) if isinstance(y, ast.Name)}
+        defs = [d for ds in rd.defs_at.values() for d in ds if d.kind in ("assign", "aug") and not d.weak and "." not in d.var]
+        if not defs:
+            continue
+        used = set()
+        for nd in rd.cfg.nodes:
+            if nd.ast is None:
+                continue
+            names = {y.id for y in ast.walk(nd.ast) if isinstance(y, ast.Name) and isinstance(y.ctx, (ast.Load, ast.Del))}
+            if isinstance(nd.ast, ast.AugAssign) and isinstance(nd.ast.target, ast.Name):
+                names.add(nd.ast.target.id)
+            names |= {y.value.id for y in ast.walk(nd.ast) if isinstance(y, (ast.Subscript, ast.Attribute)) and
+                      isinstance(y.ctx, ast.Store) and isinstance(y.value, ast.Name)}
+            for nm in names:
+                used.update(rd.reaching(nm, nd.id))
+        glob = {x for st in ast.walk(f.node) if isinstance(st, (ast.Global, ast.Nonlocal)) for x in st.names}
+        dead = sorted({d.var for d in defs if d not in used and d.var not in nested and not d.var.startswith("_")
+                       and d.var not in glob})
+        if len(dead) <= DEAD_DEF_EXEMPT.get((f.module.rel, f.qualname), (0, ""))[0]:
+            dead = []
+        n += 1
+        ctx.ob(rule, f.site, not dead, "" if not dead else f"{f.qualname}: the value assigned to {dead} is never read on any path "
+               "(overwritten or dropped first): the computation it belongs to does not reach the result",
+               role="dead-definition" + ("" if not dead else ":" + ",".join(dead)), line=f.node.lineno)
+    return n
